@@ -27,6 +27,12 @@ All of these quantify over every `UseKind`, hence also over the vectors obtained
 exported `RegisterCounter` / `RegisterGauge` (`counterAs`, `gaugeAs`: the caller writes the series
 directly); the last section adds their value theorems and
 `register_counter_then_allocate_shares_series` / `register_gauge_then_allocate_shares_series`.
+They also cover `RegisterCounter` / `RegisterGauge` called with the caller's own help text
+(`counterAsD desc`, `gaugeAsD desc`; `counterAs` / `gaugeAs` are the instances with tally's default
+text: `counterAs_is_counterAsD_default`, `gaugeAs_is_gaugeAsD_default`); the last section has their
+value theorems and `register_same_help_other_kind_is_already`: the same text for a counter and a
+gauge of one name and one label set is answered with `AlreadyRegisteredError`, not with
+"previously registered … different help".
 -/
 namespace Tally.Props.C17
 open Tally Tally.Prom
@@ -511,5 +517,224 @@ example : finalGather {} [.use .counterAs [109] [], .op 0 (.inc 3), .op 0 (.inc 
 report pass — the shared series ends at 1.0, not at the last update in program order -/
 example : getS (run {} [.use .gaugeAs [103] [], .use .gauge [103] [], .op 1 (.update 0x3FF0000000000000),
       .op 0 (.update 0x4004000000000000), .pass]).rep.series ⟨[103], []⟩ = some (.gauge 0x3FF0000000000000) := by decide
+
+/-! ### `RegisterCounter` / `RegisterGauge` with the caller's own help text -/
+
+/-- **counterAs_is_counterAsD_default** — `RegisterCounter(name, keys, name+" counter")` is the
+`counterAs` use: same reporter afterwards, same outcome (`useMetric` does not record the kind) … -/
+theorem counterAs_is_counterAsD_default (cfg : Cfg) (r : Reporter) (name : Bytes) (tags : Tags) :
+    useMetric cfg r (.counterAsD (name ++ helpSuffix .counter)) name tags = useMetric cfg r .counterAs name tags := rfl
+
+theorem gaugeAs_is_gaugeAsD_default (cfg : Cfg) (r : Reporter) (name : Bytes) (tags : Tags) :
+    useMetric cfg r (.gaugeAsD (name ++ helpSuffix .gauge)) name tags = useMetric cfg r .gaugeAs name tags := rfl
+
+/-- … and as a step of a history the two differ in the recorded kind only: same reporter, same
+metric object handed to the caller, same outcome and callback count in the trace -/
+theorem step_counterAsD_default (cfg : Cfg) (w : World) (name : Bytes) (tags : Tags) :
+    (step cfg w (.use (.counterAsD (name ++ helpSuffix .counter)) name tags)).rep = (step cfg w (.use .counterAs name tags)).rep
+    ∧ (step cfg w (.use (.counterAsD (name ++ helpSuffix .counter)) name tags)).metrics
+        = (step cfg w (.use .counterAs name tags)).metrics
+    ∧ (step cfg w (.use (.counterAsD (name ++ helpSuffix .counter)) name tags)).trace.map (fun t => (t.outcome, t.callbacks))
+        = (step cfg w (.use .counterAs name tags)).trace.map (fun t => (t.outcome, t.callbacks)) := by
+  simp only [step, counterAs_is_counterAsD_default]
+  refine ⟨trivial, ?_, by simp⟩
+  cases (useMetric cfg w.rep .counterAs name tags).2 <;> rfl
+
+theorem step_gaugeAsD_default (cfg : Cfg) (w : World) (name : Bytes) (tags : Tags) :
+    (step cfg w (.use (.gaugeAsD (name ++ helpSuffix .gauge)) name tags)).rep = (step cfg w (.use .gaugeAs name tags)).rep
+    ∧ (step cfg w (.use (.gaugeAsD (name ++ helpSuffix .gauge)) name tags)).metrics
+        = (step cfg w (.use .gaugeAs name tags)).metrics
+    ∧ (step cfg w (.use (.gaugeAsD (name ++ helpSuffix .gauge)) name tags)).trace.map (fun t => (t.outcome, t.callbacks))
+        = (step cfg w (.use .gaugeAs name tags)).trace.map (fun t => (t.outcome, t.callbacks)) := by
+  simp only [step, gaugeAs_is_gaugeAsD_default]
+  refine ⟨trivial, ?_, by simp⟩
+  cases (useMetric cfg w.rep .gaugeAs name tags).2 <;> rfl
+
+/-- **gather_register_counter_desc_sum** — `gather_register_counter_sum` for any help text -/
+theorem gather_register_counter_desc_sum (cfg : Cfg) (pre post : List Ev) (d : Bytes) (name : Bytes) (tags : Tags)
+    (hd : Separate pre post (.counterAsD d) name tags) (hu : Usable cfg pre (.counterAsD d) name tags) :
+    (∃ e ∈ finalGather cfg (pre ++ [.use (.counterAsD d) name tags] ++ post), e.key = ⟨name, tags⟩)
+    ∧ ∀ e ∈ finalGather cfg (pre ++ [.use (.counterAsD d) name tags] ++ post), e.key = ⟨name, tags⟩ →
+        e.val = .counter (Spec.C17.incSum (proj (usesOf pre).length post)) := by
+  obtain ⟨f, hfk, _, hex, hall⟩ := final_series cfg pre post (.counterAsD d) name tags hd hu
+  refine ⟨hex, fun e he hk => ?_⟩
+  rw [hall e he hk]
+  have hz : Val.zero f = .counter 0 := by simp [Val.zero, hfk, Spec.C17.typeOf]
+  have hrc : Spec.C17.incSum (proj (usesOf pre).length post ++ [.pass]) = Spec.C17.incSum (proj (usesOf pre).length post) := by
+    generalize proj (usesOf pre).length post = l
+    induction l with
+    | nil => rfl
+    | cons a t ih => cases a <;> simp [Spec.C17.incSum, ih]
+  rw [hz]
+  simp only [newMetric, localRun_rawCounter, Val.export, hrc, Nat.zero_add]
+
+/-- **gather_register_gauge_desc_last** — `gather_register_gauge_last` for any help text -/
+theorem gather_register_gauge_desc_last (cfg : Cfg) (pre post : List Ev) (d : Bytes) (name : Bytes) (tags : Tags)
+    (hd : Separate pre post (.gaugeAsD d) name tags) (hu : Usable cfg pre (.gaugeAsD d) name tags) :
+    (∃ e ∈ finalGather cfg (pre ++ [.use (.gaugeAsD d) name tags] ++ post), e.key = ⟨name, tags⟩)
+    ∧ ∀ e ∈ finalGather cfg (pre ++ [.use (.gaugeAsD d) name tags] ++ post), e.key = ⟨name, tags⟩ →
+        e.val = .gauge (Spec.C17.lastUpdate (proj (usesOf pre).length post) 0) := by
+  obtain ⟨f, hfk, _, hex, hall⟩ := final_series cfg pre post (.gaugeAsD d) name tags hd hu
+  refine ⟨hex, fun e he hk => ?_⟩
+  rw [hall e he hk]
+  have hz : Val.zero f = .gauge 0 := by simp [Val.zero, hfk, Spec.C17.typeOf]
+  have hrc : ∀ d, Spec.C17.lastUpdate (proj (usesOf pre).length post ++ [.pass]) d = Spec.C17.lastUpdate (proj (usesOf pre).length post) d := by
+    generalize proj (usesOf pre).length post = l
+    induction l with
+    | nil => intro d; rfl
+    | cons a t ih => intro d; cases a <;> simp [Spec.C17.lastUpdate, ih]
+  rw [hz]
+  simp only [newMetric, localRun_rawGauge, Val.export, hrc]
+
+/-- **register_same_help_other_kind_is_already** — in any reporter (reachable or not) whose caches
+hold neither a counter nor a gauge vector for `(name, keys)`: once `RegisterCounter(name, keys, d)`
++ `With(tags)` handed the caller a usable Prometheus counter (so the family was registered with the
+help text `d`), `RegisterGauge(name, keys, d')` with the same name and tag keys
+
+* changes nothing at all — registry, caches, series, and the list of errors handed to
+  `OnRegisterError` (the callback is not invoked, so it cannot panic either; the outcome is neither
+  `callbackPanic` nor `nilDeref`): the error comes back to the caller;
+* with the SAME text `d' = d` the error is `AlreadyRegisteredError` (`RegErr.already`: the two
+  descriptors are equal — the kind is no part of a descriptor);
+* with any OTHER text it is the "previously registered descriptor … different help string" error
+  (`RegErr.inconsistent`). -/
+theorem register_same_help_other_kind_is_already (cfg : Cfg) (r : Reporter) (name : Bytes) (tags tags' : Tags)
+    (d d' : Bytes) (k : SeriesKey) (hkeys : keysOf tags' = keysOf tags)
+    (hc : lookupKey r.counters (name, keysOf tags) = none) (hg : lookupKey r.gauges (name, keysOf tags) = none)
+    (h : (useMetric cfg r (.counterAsD d) name tags).2 = .usable k) :
+    ∀ r1, r1 = (useMetric cfg r (.counterAsD d) name tags).1 →
+      (useMetric cfg r1 (.gaugeAsD d') name tags').1 = r1
+      ∧ (d' = d → (useMetric cfg r1 (.gaugeAsD d') name tags').2 = .regError .already)
+      ∧ (d' ≠ d → (useMetric cfg r1 (.gaugeAsD d') name tags').2 = .regError .inconsistent) := by
+  intro r1 hr1
+  obtain ⟨f, hf, _, hst⟩ := finishRegister_usable (counterVecD r name (keysOf tags) d) tags k h
+  obtain ⟨hn, hfd, hreg, hgs⟩ := counterVecD_registered r name (keysOf tags) d f hc hf
+  have hr1' : r1 = (finishRegister (counterVecD r name (keysOf tags) d) tags).1 := hr1
+  have hreg1 : r1.reg = r.reg ++ [f] := by rw [hr1', hst.reg, hreg]
+  have hg1 : lookupKey r1.gauges (name, keysOf tags) = none := by rw [hr1', hst.gauges, hgs]; exact hg
+  have hv := gaugeVecD_conflict r1 r.reg f name (keysOf tags) d' hreg1 hn (by rw [hfd]; rfl) (by rw [hfd]; rfl) hg1
+  have hu : useMetric cfg r1 (.gaugeAsD d') name tags' = finishRegister (gaugeVecD r1 name (keysOf tags) d') tags' := by
+    rw [← hkeys]; rfl
+  have hh : f.help = d := by rw [hfd]; rfl
+  rw [hu, hv, hh]
+  refine ⟨rfl, fun e => ?_, fun e => ?_⟩
+  · simp [finishRegister, e]
+  · have : ¬ d = d' := fun e' => e e'.symm
+    simp [finishRegister, this]
+
+/-- the same with the kinds exchanged: `RegisterGauge` first, then `RegisterCounter` -/
+theorem register_same_help_other_kind_is_already_gauge_first (cfg : Cfg) (r : Reporter) (name : Bytes) (tags tags' : Tags)
+    (d d' : Bytes) (k : SeriesKey) (hkeys : keysOf tags' = keysOf tags)
+    (hc : lookupKey r.counters (name, keysOf tags) = none) (hg : lookupKey r.gauges (name, keysOf tags) = none)
+    (h : (useMetric cfg r (.gaugeAsD d) name tags).2 = .usable k) :
+    ∀ r1, r1 = (useMetric cfg r (.gaugeAsD d) name tags).1 →
+      (useMetric cfg r1 (.counterAsD d') name tags').1 = r1
+      ∧ (d' = d → (useMetric cfg r1 (.counterAsD d') name tags').2 = .regError .already)
+      ∧ (d' ≠ d → (useMetric cfg r1 (.counterAsD d') name tags').2 = .regError .inconsistent) := by
+  intro r1 hr1
+  obtain ⟨f, hf, _, hst⟩ := finishRegister_usable (gaugeVecD r name (keysOf tags) d) tags k h
+  obtain ⟨hn, hfd, hreg, hcs⟩ := gaugeVecD_registered r name (keysOf tags) d f hg hf
+  have hr1' : r1 = (finishRegister (gaugeVecD r name (keysOf tags) d) tags).1 := hr1
+  have hreg1 : r1.reg = r.reg ++ [f] := by rw [hr1', hst.reg, hreg]
+  have hc1 : lookupKey r1.counters (name, keysOf tags) = none := by rw [hr1', hst.counters, hcs]; exact hc
+  have hv := counterVecD_conflict r1 r.reg f name (keysOf tags) d' hreg1 hn (by rw [hfd]; rfl) (by rw [hfd]; rfl) hc1
+  have hu : useMetric cfg r1 (.counterAsD d') name tags' = finishRegister (counterVecD r1 name (keysOf tags) d') tags' := by
+    rw [← hkeys]; rfl
+  have hh : f.help = d := by rw [hfd]; rfl
+  rw [hu, hv, hh]
+  refine ⟨rfl, fun e => ?_, fun e => ?_⟩
+  · simp [finishRegister, e]
+  · have : ¬ d = d' := fun e' => e e'.symm
+    simp [finishRegister, this]
+
+/-- with tally's default texts (`counterAs`, then `gaugeAs`: `name+" counter"` against
+`name+" gauge"`) the second registration is therefore always the "previously registered" error -/
+theorem register_default_help_other_kind_is_inconsistent (cfg : Cfg) (r : Reporter) (name : Bytes) (tags tags' : Tags)
+    (k : SeriesKey) (hkeys : keysOf tags' = keysOf tags)
+    (hc : lookupKey r.counters (name, keysOf tags) = none) (hg : lookupKey r.gauges (name, keysOf tags) = none)
+    (h : (useMetric cfg r .counterAs name tags).2 = .usable k) :
+    ∀ r1, r1 = (useMetric cfg r .counterAs name tags).1 →
+      useMetric cfg r1 .gaugeAs name tags' = (r1, .regError .inconsistent) := by
+  intro r1 hr1
+  rw [← counterAs_is_counterAsD_default] at h hr1
+  obtain ⟨h1, _, h3⟩ := register_same_help_other_kind_is_already cfg r name tags tags' (name ++ helpSuffix .counter)
+    (name ++ helpSuffix .gauge) k hkeys hc hg h r1 hr1
+  have hne : name ++ helpSuffix .gauge ≠ name ++ helpSuffix .counter := by
+    intro e
+    exact absurd (List.append_cancel_left e) (by decide)
+  rw [← gaugeAs_is_gaugeAsD_default]
+  exact Prod.ext h1 (h3 hne)
+
+/-- **register_same_help_other_kind_in_history** — the same inside a history: after any `pre` that
+does not mention `name`, `RegisterCounter(name, keys, d)` + `With(tags)` is usable, and a
+`RegisterGauge(name, keys, d')` right after it leaves the reporter as it was, hands the caller
+nothing (`Metric.dead`) and is recorded with the returned error's class and zero callback
+invocations — `already` for the same text, `inconsistent` for another one -/
+theorem register_same_help_other_kind_in_history (cfg : Cfg) (pre : List Ev) (name : Bytes) (tags tags' : Tags)
+    (d d' : Bytes) (hkeys : keysOf tags' = keysOf tags) (hn : ∀ u ∈ usesOf pre, u.2.1 ≠ name) :
+    ∀ w1, w1 = run cfg (pre ++ [.use (.counterAsD d) name tags]) →
+      Usable cfg pre (.counterAsD d) name tags
+      ∧ (run cfg (pre ++ [.use (.counterAsD d) name tags] ++ [.use (.gaugeAsD d') name tags'])).rep = w1.rep
+      ∧ (run cfg (pre ++ [.use (.counterAsD d) name tags] ++ [.use (.gaugeAsD d') name tags'])).metrics = w1.metrics ++ [.dead]
+      ∧ (run cfg (pre ++ [.use (.counterAsD d) name tags] ++ [.use (.gaugeAsD d') name tags'])).trace
+          = w1.trace ++ [{ kind := .gaugeAsD d', outcome := .regError (if d' = d then .already else .inconsistent),
+                           callbacks := 0 }] := by
+  intro w1 hw1
+  have hu : Usable cfg pre (.counterAsD d) name tags := fresh_usable cfg pre (.counterAsD d) name tags hn
+  obtain ⟨k, hk⟩ := hu
+  obtain ⟨_, hc, hg⟩ := fresh_misses cfg pre name (keysOf tags) hn
+  have hrep : w1.rep = (useMetric cfg (run cfg pre).rep (.counterAsD d) name tags).1 := by
+    rw [hw1, run_append]; rfl
+  obtain ⟨h1, h2, h3⟩ := register_same_help_other_kind_is_already cfg (run cfg pre).rep name tags tags' d d' k hkeys hc hg hk
+    w1.rep hrep
+  have ho : (useMetric cfg w1.rep (.gaugeAsD d') name tags').2 = .regError (if d' = d then .already else .inconsistent) := by
+    by_cases e : d' = d
+    · rw [h2 e]; simp [e]
+    · rw [h3 e]; simp [e]
+  refine ⟨⟨k, hk⟩, ?_⟩
+  rw [run_append, ← hw1]
+  simp only [List.foldl_cons, List.foldl_nil, step]
+  rw [show useMetric cfg w1.rep (.gaugeAsD d') name tags' = (w1.rep, .regError (if d' = d then .already else .inconsistent)) from
+    Prod.ext h1 ho]
+  simp
+
+/-- non-vacuity of `register_same_help_other_kind_is_already` — on the initial reporter, under a
+PANICKING callback: `RegisterCounter("m", [], "h")` + `With` is usable; `RegisterGauge("m", [], "h")`
+(same text) comes back with `AlreadyRegisteredError`, `RegisterGauge("m", [], "i")` (another text)
+with the "previously registered" error; the callback is never invoked, the registry keeps its one
+family … -/
+example : ((run { cbPanics := true } [.use (.counterAsD [104]) [109] [], .use (.gaugeAsD [104]) [109] [],
+      .use (.gaugeAsD [105]) [109] []]).trace.map fun t => (t.outcome, t.callbacks))
+    = [(.usable ⟨[109], []⟩, 0), (.regError .already, 0), (.regError .inconsistent, 0)] := by decide
+
+example : (run { cbPanics := true } [.use (.counterAsD [104]) [109] [], .use (.gaugeAsD [104]) [109] [],
+      .use (.gaugeAsD [105]) [109] []]).rep.reg
+    = [{ name := [109], help := [104], labels := [], kind := .counter, bounds := [] }] := by decide
+
+/-- … the theorem instantiated there (the hypotheses hold), with other tag values for the gauge … -/
+example : ∀ r1, r1 = (useMetric {} {} (.counterAsD [104]) [109] [([97], [120])]).1 →
+    (useMetric {} r1 (.gaugeAsD [104]) [109] [([97], [121])]).2 = .regError .already := fun r1 hr1 =>
+  (register_same_help_other_kind_is_already {} {} [109] [([97], [120])] [([97], [121])] [104] [104] ⟨[109], [([97], [120])]⟩
+    (by decide) (by decide) (by decide) (by decide) r1 hr1).2.1 rfl
+
+/-- … with tally's own texts (`rc` then `rg`) the same history ends in "previously registered" … -/
+example : ((run {} [.use .counterAs [109] [], .use .gaugeAs [109] []]).trace.map fun t => (t.outcome, t.callbacks))
+    = [(.usable ⟨[109], []⟩, 0), (.regError .inconsistent, 0)] := by decide
+
+/-- … and `Gather()` shows the caller's help text: `RegisterCounter("m", [], "h")`, two `Add`s -/
+example : finalGather {} [.use (.counterAsD [104]) [109] [], .op 0 (.inc 3), .op 0 (.inc 4)]
+    = [{ key := ⟨[109], []⟩, help := [104], val := .counter 7 }] := by
+  have h : entriesOf (run {} ([.use (.counterAsD [104]) [109] [], .op 0 (.inc 3), .op 0 (.inc 4)] ++ [.pass])).rep
+      = [{ key := ⟨[109], []⟩, help := [104], val := .counter 7 }] := by decide
+  unfold finalGather gather
+  rw [h, List.mergeSort_singleton]
+
+/-- a cache hit ignores the text: `AllocateCounter` (default text) first, then
+`RegisterCounter(…, "h")` of the same name and tag keys is usable and shares the series; a
+`RegisterGauge(…, "h")` after that meets the DEFAULT counter text in the registry, hence
+"previously registered" — the cache-miss hypothesis of the theorem is needed -/
+example : ((run {} [.use .counter [109] [], .use (.counterAsD [104]) [109] [], .use (.gaugeAsD [104]) [109] []]).trace.map
+      fun t => (t.outcome, t.callbacks))
+    = [(.usable ⟨[109], []⟩, 0), (.usable ⟨[109], []⟩, 0), (.regError .inconsistent, 0)] := by decide
 
 end Tally.Props.C17
